@@ -50,6 +50,16 @@ CLAIMED = {
    note='Known finding D11 (select_n_nodes extra-node loop) is reported as KNOWN-FINDING; completeness is proved for no level and claimed for none (None/All/LocalQuorum/EachQuorum never fail by construction). Trusted: Lean kernel + standard axioms; layouts well-formed (distinct DC names, unique addresses, local node in its own DC); 2 s cache expiry exercised only by sleeping cases.',
    technique='Lean 4 proof (loop invariant of select_n_nodes over all cursor states; actor invariant over request histories) + model/implementation correspondence check',
    ref='§8 C15'),
+ 'C16': dict(
+   text='Lean 4 theorems about the executable model of watch_membership_changes, the latest-value channel and a delta-applying subscriber: delta_exact (left = members of the previous snapshot that are absent or re-addressed, with the address they had; joined = new or re-addressed ones), delta_applies (applying the delta to the previous membership gives exactly the new one), lossless_subscriber_tracks (a subscriber present from the first snapshot and reading after every publication holds exactly the live set after every snapshot, for snapshot sequences of any length). The FULL statement (any subscription point, any read placement) is REFUTED for the unchanged code: slow_subscriber_counterexample and late_subscriber_counterexample (decide), replayed on the implementation: known finding D9 (deltas on a tokio watch channel). Negation witness for the pinned left-lookup (D8, fixed).',
+   note='Known finding D9 is reported as KNOWN-FINDING; the proved part is exactly the lossless-subscriber case. Trusted: Lean kernel + standard axioms; tokio::sync::watch = version + latest value; snapshots have distinct node ids.',
+   technique='Lean 4 proof (set-level characterisation of deltas, induction over snapshot sequences; counterexamples by decide) + model/implementation correspondence check',
+   ref='§8 C16'),
+ 'C11': dict(
+   text='Lean 4 theorems: the clock actor is a fold of HLCTimestamp::send/recv over the queue of processed events, so every interleaving of any number of callers is some event list; for EVERY event list with arbitrary (stalled/backwards) wall readings: replies to get_time are strictly increasing in processing order hence pairwise distinct, every subsequence (one task\'s own replies) is strictly increasing, a get_time processed after an accepted register_ts(r) replies above r, replies carry the node id. Tied to the code by replaying the processed-event log of the real actor (hook) through the model and by checking the property on what 1-32 concurrent tasks actually received on a multi-threaded runtime.',
+   note='PARTIAL where the truth is in the runtime: FIFO/single-consumer behaviour of flume and delivery of each oneshot reply to its caller are assumed by the model and observed by the run, not proved. Trusted: Lean kernel + standard axioms; injected wall clock.',
+   technique='Lean 4 proof (corollaries of the clock history theorem over all event lists) + actor-log replay through the model',
+   ref='§8 C11'),
 }
 NA_REASON = 'check not built yet (work in progress; see DESIGN.md section 8)'
 
